@@ -402,6 +402,13 @@ def run(ctx):
     import rule as _R
     _c11r.decoders(_R.View(ctx, {'L1': 'L1', 'P1': 'L2', 'P2': 'L2', 'P3': 'L2'}))
 
+    # every chunk kind of the format is known to the dispatch: the code -> kind table equals the spec's 14 codes, each producing its own
+    # kind, unknown codes refused (a kind dropped from the table - seed C01-l removed the deprecated Mask chunk - makes a conformant
+    # file with such a chunk unloadable)
+    import C15 as _c15m
+    import rule as _R2
+    _c15m.matchers(_R2.View(ctx, {'T1': 'O3', 'T2': 'O3', 'T3': 'O3'}), bindings, only=('asefile::parse::parse_chunk_type',))
+
     # ---------------- O4 lookups / iteration
     lb = ctx.anchor('asefile::file::AsepriteFile::layer_by_name')
     if lb is not None:
